@@ -391,6 +391,20 @@ func (x *X) external(fr *Frame, st *State, fn *ssa.Function, args []SV, cc *ssa.
 			x.vc.assume(mkImplies(mkEq(argT(0), argT(1)), r))
 		}
 		return rets
+	case "maps.Copy", "maps.Insert", "maps.DeleteFunc":
+		// the destination map is rewritten: its contents become arbitrary
+		if mt, ok := sig.Params().At(0).Type().Underlying().(*types.Map); ok {
+			m := argT(0)
+			ks, vs := x.enc.sortOf(mt.Key()), x.enc.sortOf(mt.Elem())
+			has, getk, lenk := x.mapKeys(ks, vs)
+			st.mem[has] = x.vc.define("h", mkStore(x.get(st, has), m, x.vc.fresh("mapcopy_has", arraySort(ks, SBool))))
+			st.mem[getk] = x.vc.define("h", mkStore(x.get(st, getk), m, x.vc.fresh("mapcopy_get", arraySort(ks, vs))))
+			nl := x.vc.fresh("mapcopy_len", isz)
+			x.vc.assume(mkAnd(x.ile(x.ic(0), nl), x.ile(nl, x.ic(0x3fffffffffffffff))))
+			st.mem[lenk] = x.vc.define("h", mkStore(x.get(st, lenk), m, nl))
+			x.enc.assumption(name + " rewrites its destination map (contents afterwards arbitrary)")
+			return nil
+		}
 	case "slices.Collect":
 		if it, ok := args[0].(*IterV); ok {
 			return []SV{x.collectMap(st, it, fn)}
@@ -443,7 +457,15 @@ func (x *X) external(fr *Frame, st *State, fn *ssa.Function, args []SV, cc *ssa.
 		}
 		return rets
 	case "unicode/utf8.RuneLen", "unicode/utf8.ValidRune", "unicode/utf16.IsSurrogate", "unicode/utf16.DecodeRune", "unicode/utf8.RuneCountInString", "unicode.IsSpace", "unicode.IsDigit", "unicode.IsLetter", "github.com/smasher164/xid.Start", "github.com/smasher164/xid.Continue", "unicode/utf8.ValidString", "unicode/utf8.RuneError":
-		return pureUF("pure function of its arguments")
+		rets := pureUF("pure function of its arguments")
+		switch name {
+		case "unicode.IsSpace", "unicode.IsDigit", "unicode.IsLetter", "github.com/smasher164/xid.Start", "github.com/smasher164/xid.Continue", "unicode/utf8.ValidRune", "unicode/utf16.IsSurrogate":
+			// no character class contains a negative rune
+			i32 := types.Typ[types.Int32]
+			x.vc.assume(mkImplies(x.enc.intCmp(token.LSS, argT(0), x.enc.intConst(0, i32), i32), mkNot(rets[0].(Term))))
+			x.enc.assumption("unicode/xid character classes contain no negative rune")
+		}
+		return rets
 	case "unicode/utf8.DecodeRune":
 		s := argT(0)
 		_, _, ln, _ := x.sliceParts(s)
